@@ -198,3 +198,98 @@ Proof.
   intros Hne. rewrite erun_snoc. unfold estep, eupd.
   destruct (N.eqb i (route e)) eqn:E; [|reflexivity]. apply N.eqb_eq in E. congruence.
 Qed.
+
+(* ---- price() is "latest wins per kind, top of book preferred" ------------------------------------ *)
+
+Lemma md_run_snoc h e : md_run (h ++ [e]) = md_process (md_run h) e.
+Proof. unfold md_run. rewrite fold_left_app. reflexivity. Qed.
+
+Lemma l1_deliveries_snoc h e :
+  l1_deliveries (h ++ [e]) = (l1_deliveries h ++ match e with ML1 t l => [(t, l)] | _ => [] end)%list.
+Proof. unfold l1_deliveries. rewrite flat_map_app. cbn [flat_map]. rewrite app_nil_r. reflexivity. Qed.
+Lemma trade_deliveries_snoc h e :
+  trade_deliveries (h ++ [e]) =
+  (trade_deliveries h ++ match e with MTrade t (Some p) => [(t, p)] | _ => [] end)%list.
+Proof. unfold trade_deliveries. rewrite flat_map_app. cbn [flat_map]. rewrite app_nil_r. reflexivity. Qed.
+
+Lemma is_latest_keep {V} (ds : list (Z * V)) d x :
+  is_latest ds d -> (fst x <= fst d)%Z -> is_latest (ds ++ [x]) d.
+Proof.
+  intros [Hin Hmax] Hx. split; [apply in_or_app; left; exact Hin|].
+  intros d' H. apply in_app_or in H. destruct H as [H|[H|[]]]; [apply Hmax, H|subst; exact Hx].
+Qed.
+Lemma is_latest_new {V} (ds : list (Z * V)) d x :
+  is_latest ds d -> (fst d < fst x)%Z -> is_latest (ds ++ [x]) x.
+Proof.
+  intros [Hin Hmax] Hx. split; [apply in_or_app; right; left; reflexivity|].
+  intros d' H. apply in_app_or in H. destruct H as [H|[H|[]]]; [specialize (Hmax _ H); lia|subst; lia].
+Qed.
+
+Definition md_latest (h : list mevent) (m : mdata) : Prop :=
+  is_latest ((0%Z, l1_default) :: l1_deliveries h) (l1_time (md_l1 m), md_l1 m) /\
+  match md_last m with
+  | None => trade_deliveries h = []%list
+  | Some d => is_latest (trade_deliveries h) d
+  end.
+
+Lemma md_run_latest h : Forall mevent_wf h -> md_latest h (md_run h).
+Proof.
+  induction h as [|e h IH] using rev_ind; intros Hwf.
+  - split; [|reflexivity]. split; [left; reflexivity|]. intros d' [H|[]]. subst. cbn. lia.
+  - apply Forall_app in Hwf. destruct Hwf as [Hh He]. inversion He as [|? ? Hwe _]; subst.
+    destruct (IH Hh) as [HL HT]. rewrite md_run_snoc. set (m := md_run h) in *.
+    unfold md_latest. rewrite l1_deliveries_snoc, trade_deliveries_snoc.
+    destruct e as [t [p|]|t l|t]; cbn [md_process mevent_wf] in *.
+    + (* priced trade *)
+      destruct (md_last m) as [[t0 p0]|] eqn:El.
+      * destruct (Z.ltb_spec t0 t) as [Hlt|Hge]; cbn [md_l1 md_last]; rewrite ?app_nil_r.
+        -- split; [exact HL|]. apply (is_latest_new _ (t0, p0)); [exact HT|exact Hlt].
+        -- rewrite El. split; [exact HL|]. apply is_latest_keep; [exact HT|exact Hge].
+      * cbn [md_l1 md_last]. rewrite app_nil_r, HT. split; [exact HL|].
+        split; [left; reflexivity|]. intros d' [H|[]]. subst. lia.
+    + (* trade whose price does not convert *)
+      rewrite !app_nil_r.
+      destruct (match md_last m with Some (t0, _) => Z.ltb t0 t | None => true end); split; assumption.
+    + (* top of book *)
+      rewrite app_nil_r.
+      destruct (Z.ltb_spec (l1_time (md_l1 m)) t) as [Hlt|Hge]; cbn [md_l1 md_last].
+      * split; [|exact HT]. rewrite Hwe.
+        change ((0%Z, l1_default) :: l1_deliveries h ++ [(t, l)])%list
+          with (((0%Z, l1_default) :: l1_deliveries h) ++ [(t, l)])%list.
+        apply (is_latest_new _ (l1_time (md_l1 m), md_l1 m)); [exact HL|exact Hlt].
+      * split; [|exact HT].
+        change ((0%Z, l1_default) :: l1_deliveries h ++ [(t, l)])%list
+          with (((0%Z, l1_default) :: l1_deliveries h) ++ [(t, l)])%list.
+        apply is_latest_keep; [exact HL|exact Hge].
+    + rewrite !app_nil_r. split; assumption.
+Qed.
+
+(** price() of the data after any delivery list = reference price of a latest top-of-book update
+    (the default book counting as time 0) and a latest priced trade *)
+Lemma price_latest_wins h : Forall mevent_wf h ->
+  exists l last,
+    is_latest ((0%Z, l1_default) :: l1_deliveries h) (l1_time l, l) /\
+    match last with
+    | None => trade_deliveries h = []%list
+    | Some d => is_latest (trade_deliveries h) d
+    end /\
+    md_price (md_run h) = ref_price l last.
+Proof.
+  intros Hwf. destruct (md_run_latest h Hwf) as [HL HT].
+  exists (md_l1 (md_run h)), (md_last (md_run h)). split; [exact HL|]. split; [exact HT|].
+  destruct (md_run h). reflexivity.
+Qed.
+
+(** fills never touch the market data *)
+Lemma market_events_snoc h e :
+  market_events (h ++ [e]) = (market_events h ++ match e with IMarket m => [m] | IFill _ => [] end)%list.
+Proof. unfold market_events. rewrite flat_map_app. cbn [flat_map]. rewrite app_nil_r. reflexivity. Qed.
+
+Lemma irun_md h : is_md (irun h) = md_run (market_events h).
+Proof.
+  induction h as [|e h IH] using rev_ind; [reflexivity|].
+  rewrite irun_snoc, market_events_snoc. destruct e as [m|f]; cbn [istep].
+  - rewrite md_run_snoc, <- IH. unfold is_market.
+    destruct (is_pos (irun h)); [destruct (md_price _)|]; reflexivity.
+  - rewrite app_nil_r. exact IH.
+Qed.
